@@ -231,6 +231,7 @@ fn input_fingerprint(i: &Input) -> String {
         Input::Unit => "()".into(),
         Input::StrKeyMap(m) => format!("{m:?}"),
         Input::Chain(c) => format!("chain:{}", c.v),
+        Input::Typed(_) => "typed".into(),
     }
 }
 
